@@ -437,6 +437,20 @@ func (fc *FnCtx) applyContract(s *State, x *ssa.Call, ct *Contract, callee *ssa.
 		}
 		s.assume(mkNot(cond))
 	}
+	// 3b. deferred handlers must not swallow panics that are not ErrNaN: let the callee
+	// hypothetically panic with some other value and see what the handlers do with it
+	if len(s.defers) > 0 && !ct.Pure {
+		ex := s.clone()
+		ex.ghostOther = true
+		ex.trace = append(ex.trace, "hypothetical non-ErrNaN panic in "+site)
+		pv := Val{K: VOpaque, T: fc.fresh("otherpanic", SInt), Dyn: "other"}
+		ex.assume(mkLt(mkI(0), pv.T))
+		ex.assume(mkNot(mkEq(app("dyntype", SInt, pv.T), mkI(fc.eng.typeCode("ErrNaN")))))
+		fc.propagatePanic(ex, pv, "hypothetical panic in "+ckey, func(s2 *State, rets []Val) {
+			fc.npaths++
+			fc.oblige(s2, fc.key+".handler.other", "handler", []string{"C19"}, "a panic whose value is not an ErrNaN must not be swallowed by the deferred handler", tFalse, "return after recover")
+		})
+	}
 	// 4. results
 	var rets []Val
 	res := sig.Results()
